@@ -63,6 +63,9 @@ def gen_case(rng: Rng, i: int, tier: str):
         ops.append({"op": r.pick(["writestr", "writef"]), "name": name, "content": {"tex": r.pick(["rand", "text", "code"]), "len": ln, "seed": r.randrange(1 << 30)}, "as": "bytes", "bio": "bytesio"})
     hdr = r.wpick([(3, "enc"), (1, "raw"), (4, "crypt")])
     sess = {"mode": "w", "chain": chain, "password": password, "header": hdr, "header_via": r.pick(["ctor", "setter"]), "ops": ops}
+    extra = rw.gen_header_extra(rng.sub("header_extra"), hdr, p=0.4)
+    if extra:
+        sess["header_extra"] = extra
     wrong = r.pick(["different", "prefix", "case", "none", "suffix"])
     return {"session": sess, "knobs": knobs, "rng": r.randrange(1 << 30), "wrong": wrong, "open": r.pick(["stream", "path", "anon"])}
 
